@@ -68,6 +68,8 @@ func (vc *FnVC) exec(fr *frame, entry *state) {
 						li.invs = append(li.invs, c)
 					} else if c.Kind == "decreases" {
 						li.decs = append(li.decs, c)
+					} else if c.Kind == "loopframe" {
+						li.frames = append(li.frames, c)
 					}
 				}
 			}
@@ -153,7 +155,12 @@ func (vc *FnVC) callModSet(c *ssa.CallCommon, li *loopInfo) {
 		}
 		return
 	}
-	ms := vc.eng.modSetOfCall(vc, c)
+	var ms modSet
+	if sm, ok := vc.specModSet(c); ok {
+		ms = sm
+	} else {
+		ms = vc.eng.modSetOfCall(vc, c)
+	}
 	if ms.all {
 		li.modAll = true
 	}
@@ -161,6 +168,9 @@ func (vc *FnVC) callModSet(c *ssa.CallCommon, li *loopInfo) {
 		li.modHeap[h] = true
 	}
 	li.modHeap["$alloc"] = true
+	if ms.pureArgs {
+		return
+	}
 	// by-reference pointer arguments that designate registers or fields
 	for _, a := range c.Args {
 		if _, isP := a.Type().Underlying().(*types.Pointer); !isP {
@@ -363,6 +373,21 @@ func (vc *FnVC) enterBlock(fr *frame, b *ssa.BasicBlock) *state {
 		vc.assume("true", vc.sorts.RangeOf(el, h))
 		hs.regs[a] = h
 	}
+	// loop frame: heap arrays havocked at the head agree with the loop-entry heap except at the listed objects
+	li.frameObjs = nil
+	if len(li.frames) > 0 && !li.modAll {
+		for _, c := range li.frames {
+			for _, m := range c.Mods {
+				li.frameObjs = append(li.frameObjs, vc.evalInt(fr, st, vc.old, m, nil))
+			}
+		}
+		for _, h := range sortedKeys(li.modHeap) {
+			if h == "$alloc" || strings.HasPrefix(h, "G:") {
+				continue
+			}
+			vc.assume("true", vc.frameFact(hs.heap[h], vc.hget(st, h), li.frameObjs, st.alloc))
+		}
+	}
 	for _, c := range li.invs {
 		t := vc.evalBool(fr, hs, vc.old, c.E, nil)
 		vc.assume(hs.reach, t)
@@ -421,6 +446,18 @@ func (vc *FnVC) addEdge(fr *frame, from, to *ssa.BasicBlock, cond string, st *st
 		}
 		if len(li.decs) == 0 {
 			vc.note("loop %d of %s has no decreases clause: termination not proved", li.ord, fr.fn.Name())
+		}
+		if len(li.frameObjs) > 0 {
+			for _, h := range sortedKeys(li.modHeap) {
+				if h == "$alloc" || strings.HasPrefix(h, "G:") {
+					continue
+				}
+				cur, head := vc.hget(bst, h), li.headSt.heap[h]
+				if cur == head {
+					continue
+				}
+				vc.oblige("loop-frame", fmt.Sprintf("loop%d:%s", li.ord, h), cond, vc.frameFact(cur, head, li.frameObjs, li.headSt.alloc), vc.tagsFor(fr, nil), "")
+			}
 		}
 		return
 	}
@@ -1161,4 +1198,117 @@ func (vc *FnVC) rangeNext(fr *frame, st *state, x *ssa.Next) {
 		}
 	}
 	fr.vals[x] = val{tup: res, typ: x.Type()}
+}
+
+// specModSet derives the heap arrays a call may modify from the callee's explicit modifies clause (if it has one).
+func (vc *FnVC) specModSet(c *ssa.CallCommon) (modSet, bool) {
+	var sp *FuncSpec
+	var sig *types.Signature
+	var names []string
+	if c.IsInvoke() {
+		sp = vc.eng.db.Funcs["iface:"+typeKey(c.Value.Type())+"."+c.Method.Name()]
+		return modSet{}, false && sp != nil
+	}
+	if callee := c.StaticCallee(); callee != nil {
+		var ft []string
+		sp, ft = vc.eng.specFor(callee)
+		sig = callee.Signature
+		for _, p := range callee.Params {
+			names = append(names, p.Name())
+		}
+		if sp != nil && sp.Inline {
+			return modSet{}, false
+		}
+		_ = ft
+		if len(ft) > 0 {
+			names = ft
+		}
+	} else if _, isB := c.Value.(*ssa.Builtin); !isB {
+		sp = vc.eng.db.Funcs["functype:"+typeKey(c.Value.Type())]
+		if sp != nil {
+			names = sp.Params
+			sig, _ = c.Value.Type().Underlying().(*types.Signature)
+		}
+	}
+	if sp == nil || !sp.HasMods || sig == nil {
+		return modSet{}, false
+	}
+	ms := modSet{heaps: map[string]bool{}, pureArgs: true}
+	ptype := func(name string) types.Type {
+		params := sig.Params()
+		off := 0
+		if sig.Recv() != nil {
+			if len(names) > 0 && names[0] == name {
+				return sig.Recv().Type()
+			}
+			off = 1
+		}
+		for i := 0; i < params.Len(); i++ {
+			if i+off < len(names) && names[i+off] == name {
+				return params.At(i).Type()
+			}
+		}
+		return nil
+	}
+	for _, cl := range sp.Clauses {
+		if cl.Kind != "modifies" {
+			continue
+		}
+		for _, m := range cl.Mods {
+			switch x := m.(type) {
+			case *ESel:
+				id, ok := x.X.(*EIdent)
+				if !ok {
+					return modSet{all: true}, true
+				}
+				t := ptype(id.Name)
+				if t == nil {
+					return modSet{all: true}, true
+				}
+				pt, ok := t.Underlying().(*types.Pointer)
+				if !ok {
+					return modSet{all: true}, true
+				}
+				st, ok := pt.Elem().Underlying().(*types.Struct)
+				if !ok {
+					return modSet{all: true}, true
+				}
+				found := false
+				for i := 0; i < st.NumFields(); i++ {
+					if st.Field(i).Name() == x.Name {
+						h, _ := vc.fieldHeap(pt.Elem(), i)
+						ms.heaps[h] = true
+						found = true
+					}
+				}
+				for _, g := range vc.eng.db.Ghosts[typeKey(pt.Elem())] {
+					if g.Name == x.Name {
+						h, _ := vc.ghostHeap(pt.Elem(), g)
+						ms.heaps[h] = true
+						found = true
+					}
+				}
+				if !found {
+					return modSet{all: true}, true
+				}
+			case *EUnary:
+				// *p : by-reference argument, handled by the caller through the argument's location
+				ms.pureArgs = false
+			default:
+				return modSet{all: true}, true
+			}
+		}
+	}
+	return ms, true
+}
+
+// frameFact: array a agrees with array b everywhere except at the given objects (and at refs allocated after `alloc`).
+func (vc *FnVC) frameFact(a, b string, objs []string, alloc string) string {
+	r := vc.newName("r")
+	var ex []string
+	for _, o := range objs {
+		ex = append(ex, fmt.Sprintf("(not (= %s %s))", r, o))
+	}
+	ex = append(ex, fmt.Sprintf("(<= %s %s)", r, alloc))
+	return fmt.Sprintf("(forall ((%s Int)) (! (=> (and %s) (= (select %s %s) (select %s %s))) :pattern ((select %s %s))))", r, strings.Join(ex, " "), a, r, b, r, a, r)
 }
